@@ -365,7 +365,7 @@ func init() {
 		ID:    "C09",
 		Level: "exploration",
 		Rule: "bundles are built from PRNG worlds whose addresses exercise queries, ref arguments, ports, %-escapes and sub-paths, with aliasing packages, several versions per registry package, deprecations, commit metadata, and packages containing links to files, empty directories, file modes 0444/0755/0600/0664/0400, directory modes 0750/0555/0500/0775, fetcher metadata with and without a commit id, vendored .terraform/modules content and spaced / non-ASCII names. " +
-			"For b0 = Close(), b1 = OpenDir(dir), b2 = ExtractArchive(WriteArchive(b0)) a sweep over all accessors (incl. every lookup relative to the root and SourceForLocalPath of every path) must print identically, twice for b0, and the two directory trees must agree on paths, kinds, contents, permission bits and link targets. non-trivial = the world built; distinct = world x package extras",
+			"For b0 = Close(), b1 = OpenDir(dir), b2 = ExtractArchive(WriteArchive(b0)) a sweep over all accessors (incl. every lookup relative to the root and SourceForLocalPath of every path) must print identically, twice for b0, and the two directory trees must agree on paths, kinds, contents, permission bits and link targets. 48 directed worlds have registry versions that differ only in build metadata (each requested exactly, leading to different packages). non-trivial = the world built; distinct = world x package extras",
 		Assumptions: []string{"modification times of the extracted copy are not compared (the statement lists files, not times)"},
 		Phases: []*fw.Phase{{
 			Name: "reopen-and-archive-round-trip",
